@@ -115,10 +115,11 @@ class Kernels:
         """-> dict(profile -> (tag, value))"""
         out = {}
         rop = fld.d["replay_ops"].get(op)
+        self.rep.finished.wait(900)          # a counterexample is replayed on the dev AND the release build
         if rop is None or not self.rep.bins:
             return out
         line = f"{fld.d['replay']} {rop} " + " ".join(MF.hexs(x) for x in operands)
-        for prof in self.rep.bins:
+        for prof in list(self.rep.bins):
             try:
                 out[prof] = MF.parse_replay(self.rep.field_batch([line], prof)[0])
             except Exception as ex:
@@ -146,7 +147,7 @@ class Kernels:
                 bad[prof] = f"real={tag} {MF.hexs(v) if isinstance(v, int) else v} expected={exp[0]} " \
                             f"{MF.hexs(exp[1]) if isinstance(exp[1], int) else ''}"
         if bad:
-            payload = dict(kind="field-kernel", field=fld.key, op=op, replay_type=fld.d["replay"],
+            payload = dict(engine_part="M", kind="field-kernel", field=fld.key, op=op, replay_type=fld.d["replay"],
                            replay_op=fld.d["replay_ops"][op], operands=[MF.hexs(x) for x in vals],
                            expected=[exp[0], MF.hexs(exp[1]) if exp and isinstance(exp[1], int) else None] if exp else None,
                            observed=bad, query=label)
@@ -216,6 +217,12 @@ class Kernels:
                                                f"{MF.hexs(val)} native {MF.hexs(want)}")
         return ok_any
 
+    def solver_vacuity(self, ob, smt):
+        """twin query that must be sat (used when no native twin is available for the function)"""
+        r = solvers.solve(smt, timeout=30)
+        ob.queries += 1
+        return r.status == "sat"
+
     # -------------------------------------------------------- linear ops
     def linear(self, fld, op, kind=None):
         run = self.run
@@ -251,6 +258,8 @@ class Kernels:
             nin = len(ins)
             vectors = [[vecs[(i + j * 3) % len(vecs)] for j in range(nin)] for i in range(len(vecs))]
             tw = self.twin(ob, fld, op, ip, ins, out, pre, vectors)
+            if tw is None:
+                tw = self.solver_vacuity(ob, fld.q_vacuity(ip, pre, goal))
             ob.vacuity = bool(tw) if tw is not None else None
             if tw is False:
                 ob.set(core.INCONCLUSIVE, "vacuity twin (pinned concrete inputs) did not come back sat/agreeing")
@@ -364,6 +373,8 @@ class Kernels:
                 vectors = [[v] for v in boundary_vectors(fld, self.rnd, canonical=False)]
             glue = "(and true " + " ".join(f"(= {w.t} {ip.term(o)})" for w, o in ip.havoc_pairs) + ")"
             tw = self.twin(ob, fld, op, ip, allin, out, pre, vectors, extra=glue)
+            if tw is None:
+                tw = self.solver_vacuity(ob, c.text() + f"(assert {pre})\n(assert {c.path_term()})\n(assert {glue})\n")
             ob.vacuity = bool(tw) if tw is not None else None
             if tw is False:
                 ob.set(core.INCONCLUSIVE, "vacuity twin (pinned concrete inputs) did not come back sat/agreeing")
@@ -437,6 +448,8 @@ class Kernels:
                 tw = self.twin(ob, fld, op, ip2, ins2, out2, pre2, vectors, n_smt=1)
             except Untranslatable as ex:
                 tw = None
+            if tw is None:
+                tw = self.solver_vacuity(ob, fld.q_vacuity(ip, pre, goal))
             ob.vacuity = bool(tw) if tw is not None else None
             if tw is False:
                 ob.set(core.INCONCLUSIVE, "vacuity twin (pinned concrete inputs, full body) did not agree with native")
@@ -705,7 +718,7 @@ class Kernels:
                 bad[prof] = f"real={tag} {MF.hexs(v) if isinstance(v, int) else v} expected={exp[0]} " \
                             f"{MF.hexs(exp[1]) if isinstance(exp[1], int) else ''}"
         if bad:
-            payload = dict(kind="field-kernel", field=fld.key, op=op, replay_type=fld.d["replay"],
+            payload = dict(engine_part="M", kind="field-kernel", field=fld.key, op=op, replay_type=fld.d["replay"],
                            replay_op=fld.d["replay_ops"][op], operands=[MF.hexs(x) for x in vals],
                            expected=[exp[0], MF.hexs(exp[1]) if isinstance(exp[1], int) else None] if exp else None,
                            observed=bad, query=label)
